@@ -154,6 +154,16 @@ def worker(ns, items, res, opts):
             continue
         for dev, detail in yield_from:
             bad(dev, detail)
+        if not yield_from and kind in _STORY_CARRIERS:
+            # the message object must expose the same after it has been merged and the running order that
+            # received it was edited inside the carried story
+            try:
+                again = list(after_merge_and_edit(ns, m, case, base, text))
+            except Exception as e:  # noqa
+                again = [(f'accessor-raised-after-merge:{type(e).__name__}', f'an accessor raised {type(e).__name__}: {e}')]
+            res.extra['rechecked_after_merge_and_edit'] += 1
+            for dev, detail in again:
+                bad('after-merge-and-edit:' + dev, 'after `ro += msg` and an item insert/delete inside the carried story: ' + detail)
         # inspect
         buf = io.StringIO()
         try:
@@ -208,6 +218,39 @@ def _content(objs, elems, what):
         if a != b:
             return ('carried-content-differs', f'{what} {o.id}: exposed element differs from the message text: {tree.first_diff(b, a)}')
     return None
+
+
+_STORY_CARRIERS = ('StoryAppend', 'StoryInsert', 'StoryReplace', 'EAStoryInsert', 'EAStoryReplace', 'StorySend', 'RunningOrderReplace')
+
+
+def base_running_order():
+    st = [gen.story_xml(i, 0, body=(('p', 'plain'), ('i', 'a'), ('i', 'ab'), ('i', 'c'))) for i in S_IDS]
+    return gen.ro_text(st, 'before', gen.meta_elems(2))
+
+
+def after_merge_and_edit(ns, m, case, base, text):
+    import warnings as _w
+    ro = ns.mt.MosFile.from_string(base_running_order())
+    with _w.catch_warnings():
+        _w.simplefilter('ignore')
+        try:
+            ro += m
+        except ns.exc.MosMergeError:
+            return
+        carried = [p[0] for p in case.get('payload', ())] or ([case['sid']] if case['kind'] == 'StorySend' else S_IDS[:case.get('n', 0)])
+        edits = 0
+        for cid in carried:
+            if cid in (BLANK, ABSENT):
+                continue
+            for t in (gen.msg_item_insert(cid, BLANK, [gen.item_xml('zz9', 0, 'edit')], msg_id=2600),
+                      gen.msg_item_delete(cid, ['a'], msg_id=2601)):
+                try:
+                    ro += ns.mt.MosFile.from_string(t)
+                    edits += 1
+                except ns.exc.MosMergeError:
+                    pass
+    if edits:
+        yield from check(ns, m, case, _msg_base(text))
 
 
 def check(ns, m, case, base):
